@@ -312,6 +312,14 @@ pub fn run(args: &Args, out: &Out) -> i32 {
     let mut cx = Ctx::new(out, args);
     let seed = args.num("seed", 1);
     let mut rng = Rng::new(seed);
+    // hook builds only: make CPU feature detection report "no AES intrinsics" for the whole run
+    if args.get("force-off") == Some("1") {
+        if !special::hook_present() {
+            eprintln!("--force-off needs a --cfg block_ciphers_verif build");
+            return 2;
+        }
+        special::set_force_off(true);
+    }
     match args.cmd.as_str() {
         "conf" => conf::run(&mut cx, args, &mut rng),
         "roundtrip" => conf::roundtrip(&mut cx, args, &mut rng),
